@@ -89,6 +89,17 @@ class C08(Prop):
             b_ts = (a[1] + a[2] + ptus) // 1000 * 1000 + 1000 * rng.choice([-2, -1, 0, 1, 2, rng.randint(-1000, 1000)])
             b = [None, rng.choice([b_ts, b_ts, a[1], a[1] - 1000, a[1] + 1000]), rng.randint(-10**6, 3 * 10**6), lab(rng.choice("AB"))]
             out.append(("random-merge", {"k": "merge", "pt": pt, "a": a, "b": b}))
+        # gaps of whole days (and longer) plus/minus a little: timedelta has separate days/seconds/microseconds fields
+        DAY = 86_400_000_000
+        for _ in range(ctx.pick(1500, 50000)):
+            a = [None, rng.randint(0, 10**4) * 1000, rng.choice([0, 1000, 10 * U, rng.randint(0, 3 * DAY)]), lab(rng.choice("AB"))]
+            pt = rng.choice([0, 0.5, 1, 5, 60, rng.random() * 10])
+            ptus = pulsetime_us(pt)
+            k = rng.choice([1, 1, 2, 7, 30, 365, rng.randint(1, 1000)])
+            delta = rng.choice([0, 0, 1000, -1000, ptus // 1000 * 1000, ptus // 1000 * 1000 + 1000, rng.randint(-5, 5) * 1000, rng.randint(0, 10**6) * 1000])
+            b = [None, a[1] + a[2] // 1000 * 1000 + k * DAY + delta, rng.choice([0, U, rng.randint(0, 2 * DAY)]), lab(rng.choice("AAB"))]
+            out.append(("day-gap-merge", {"k": "merge", "pt": pt, "a": a, "b": b}))
+            out.append(("day-gap-reduce", {"k": "reduce", "pt": pt, "l": [a, b, [None, b[1] + b[2] // 1000 * 1000 + rng.choice([0, 1000, DAY]), U, b[3]]]}))
         return out
 
     def impl(self, case):
